@@ -34,3 +34,5 @@ pub broadcast proof fn lemma_push_last<T>(s: Seq<T>, x: T)
     ensures #![trigger s.push(x)] s.push(x)[s.len() as int] == x && s.push(x).len() == s.len() + 1,
 {}
 pub broadcast group group_push { lemma_push_keeps, lemma_push_last }
+pub assume_specification<T: core::default::Default, E> [core::result::Result::<T, E>::unwrap_or_default] (r: core::result::Result<T, E>) -> (v: T)
+    ensures r matches Ok(t) ==> v == t;
